@@ -464,6 +464,28 @@ theorem none_if_part_lost (s : Mpp) (hs : Reachable s) (h : Nat) (q : Part) (hq 
       obtain ⟨known, rfl⟩ := fulfil_only_from_claim s1 op i hm
       exact Short.claim_none hreach.inv hshort known i hm
 
+/-- Over the whole history of a payment hash (ANY op list from the empty accumulator, part ids
+    distinct — an id stands for `(channel_id, htlc_id)`): every HTLC is resolved at most once. In
+    particular no HTLC is ever both failed back and fulfilled, none is fulfilled (or failed) twice,
+    and nothing is resolved that did not arrive. -/
+theorem resolved_at_most_once (ops : List Op) (hnd : (partIds ops).Nodup) (i : Nat) :
+    (resolvedIds (run Mpp.init ops).2).count i ≤ 1 ∧
+    ¬ (Out.failPart i ∈ (run Mpp.init ops).2 ∧ Out.fulfilPart i ∈ (run Mpp.init ops).2) ∧
+    (i ∈ resolvedIds (run Mpp.init ops).2 → i ∈ partIds ops) := by
+  have hle := run_count_le Mpp.init ops i
+  have h1 := (List.nodup_iff_count.1 hnd) i
+  have h0 : (ids Mpp.init).count i = 0 := rfl
+  simp only [List.count_append, h0, Nat.zero_add] at hle
+  refine ⟨by omega, ?_, ?_⟩
+  · rintro ⟨hf, hg⟩
+    have e := count_resolvedIds (run Mpp.init ops).2 i
+    have hf' := List.count_pos_iff.2 hf
+    have hg' := List.count_pos_iff.2 hg
+    omega
+  · intro hm
+    have := List.count_pos_iff.2 hm
+    exact List.count_pos_iff.1 (by omega)
+
 /-! ## non-vacuity: concrete instances of every hypothesis and outcome used above -/
 
 /-- a toy `PayCrypto` that satisfies `Wf` (only for non-vacuity; the driver uses the real primitives) -/
@@ -510,6 +532,7 @@ example : (run Mpp.init [.part 2 600 600 1000 500 1 false, .part 1 400 400 1000 
 example : (run Mpp.init [.part 2 600 600 1000 500 1 false, .part 1 400 400 1000 480 1 false,
       .block 441, .claim false]).2 = [.claimable 1000 441, .failPart 1] := by decide
 example : Quiet 441 (.block 440) ∧ ¬ Quiet 441 (.block 441) := by simp [Quiet]
+example : (partIds [.part 2 600 600 1000 500 1 false, .part 1 400 400 1000 480 1 false, .block 441, .claim false]).Nodup := by decide
 -- onion-field mismatch, over-payment bound, even TLVs with the plain claim
 example : (run Mpp.init [.part 1 600 600 1000 500 1 false, .part 2 400 400 999 500 1 false]).2 = [.failPart 2] := by decide
 example : (run Mpp.init [.part 1 600 600 1000 500 1 true, .part 2 400 400 1000 500 1 true, .claim false]).2 =
